@@ -19,8 +19,8 @@ var commonAssumptions = []string{
 var propSpecs = []PropSpec{
 	{
 		ID:          "C01",
-		Rules:       []string{"C01.NIL", "C01.EXH", "C01.TA", "C01.NILMAP", "C01.PIPE", "C01.EXIT", "C01.UNSAFE", "C01.NILELEM", "C01.LOOP", "C01.REC"},
-		Explanation: "Decides necessary conditions for crash freedom in actionlint's own code: no use of a value on a path where the code itself tested it to be nil (C01.NIL).",
+		Rules:       []string{"C01.NIL", "C01.EXH", "C01.TA", "C01.NILMAP", "C01.PIPE", "C01.EXIT", "C01.UNSAFE", "C01.NILELEM", "C01.LOOP", "C01.REC", "C01.REPEAT"},
+		Explanation: "Decides necessary conditions for crash freedom in actionlint's own code: no use of a value on a path where the code itself tested it to be nil (C01.NIL). Added after seeded changes and for the 'never hangs' clause: (NILELEM) no parse result that may be nil becomes a sequence/mapping element without a nil test; (REPEAT) the count of strings.Repeat is a sum of lengths/widths that is decremented only when positive; (LOOP) each of the 30 non-range loops has a progress argument (counter with loop-invariant bound, strict suffix, consuming read left on failure, directory fixpoint) or is delegated to the rule that bounds it (lexer bisimulation, grammar extraction, glob progress); (REC) every recursive component descends into a field or element of its argument on every cycle, or is delegated (parser: no left recursion; DFS: colours).",
 		NotDecided:  "panics or hangs inside third-party libraries; stack exhaustion; general index/slice bounds; wall-clock bounds",
 		Assumptions: commonAssumptions,
 	},
@@ -34,7 +34,7 @@ var propSpecs = []PropSpec{
 	{
 		ID:          "C03",
 		Rules:       []string{"C03.W", "C03.W2", "C03.R", "C03.LOOP", "C03.DEFER", "C03.REPLACE"},
-		Explanation: "Decides the def-use coverage of the workflow AST: every scalar field (String/[]String/Bool/Int/Float/RawYAMLValue) of every node type reachable from Workflow is (W) assigned by a parser method, (W2) by exactly one key of its section switch, and (R) read by a function reachable from RuleExpression's visitor methods and handed to an argument that flows into NewExprLexer; (LOOP) loops handing elements to the scanner have no early exit.",
+		Explanation: "Decides the def-use coverage of the workflow AST: every scalar field (String/[]String/Bool/Int/Float/RawYAMLValue) of every node type reachable from Workflow is (W) assigned by a parser method, (W2) by exactly one key of its section switch, and (R) read by a function reachable from RuleExpression's visitor methods and handed to an argument that flows into NewExprLexer; (LOOP) loops handing elements to the scanner have no early exit. (DEFER) a value parsed before or after the node it belongs to exists is handed over in both key orders; (REPLACE) a node that is filled key by key stays the same object for the whole key loop.",
 		NotDecided:  "that the diagnostic is located at that scalar and is a syntax error (position arithmetic, see C07); value-dependent behaviour of the excluded positions; conditional (path-dependent) hand-over of a parsed value to its field",
 		Assumptions: commonAssumptions,
 	},
@@ -54,15 +54,15 @@ var propSpecs = []PropSpec{
 	},
 	{
 		ID:          "C09",
-		Rules:       []string{"C09.IMM", "C09.RESET", "C09.AST", "C09.FRESH", "C13.CONT"},
-		Explanation: "Decides the ownership clauses behind independence: (IMM) every mutation of an ObjectType/ArrayType (field store, Props write/delete) acts on an object whose provenance - followed through callers, returned values and all stores to the fields it is loaded from - consists only of fresh allocations; (RESET) every field of a rule type written while visiting a job is reset by VisitJobPost on all paths, assigned first by VisitJobPre, or undone in the same function; (AST) no rule writes into the workflow AST; (FRESH) expression checkers are never kept in rule state; (CONT, shared with C13) the parser never stops at a bad key.",
+		Rules:       []string{"C09.IMM", "C09.RESET", "C09.AST", "C09.FRESH", "C13.CONT", "C09.VISITOR"},
+		Explanation: "Decides the ownership clauses behind independence: (IMM) every mutation of an ObjectType/ArrayType (field store, Props write/delete) acts on an object whose provenance - followed through callers, returned values and all stores to the fields it is loaded from - consists only of fresh allocations; (RESET) every field of a rule type written while visiting a job is reset by VisitJobPost on all paths, assigned first by VisitJobPre, or undone in the same function; (AST) no rule writes into the workflow AST; (FRESH) expression checkers are never kept in rule state; (CONT, shared with C13) the parser never stops at a bad key. (VISITOR) the visitor calls Pre, the children and Post of every pass for every job/step, leaves a callback loop early only with the callback's error, and returns success only after the Post loop.",
 		NotDecided:  "equality of diagnostic multisets across compositions; state kept in maps of workflow scope (RuleJobNeeds.nodes) is by design",
 		Assumptions: commonAssumptions,
 	},
 	{
 		ID:          "C10",
-		Rules:       []string{"C10.COW", "C10.IMM", "C10.LOCK", "C10.CONF", "C10.CAP", "C10.INST", "C10.PREFIX", "C10.SIB", "C10.PERFILE", "C02.CHAN"},
-		Explanation: "Decides the sharing discipline of multi-file runs: (COW) every write through ExprSemanticsChecker.vars is dominated by the copy of the table (and by the deep copy of github for nested writes), the copy functions install fresh maps and every DeepCopy copies its components deeply; (IMM) no mutation site reachable from the per-file check acts on data flowing from a package-level table or the shared Config; (LOCK) every access to the cache maps shared by files happens between Lock and Unlock of its mutex; (CONF) functions that are not thread-safe are unreachable from the goroutines; (CAP) goroutine bodies capture no loop variable; (INST) rules are created per file inside check; (PREFIX) project containment is separator-aware; (SIB) the caches handed to check belong to the project handed to check.",
+		Rules:       []string{"C10.COW", "C10.IMM", "C10.LOCK", "C10.CONF", "C10.CAP", "C10.INST", "C10.PREFIX", "C10.SIB", "C10.PERFILE", "C02.CHAN", "C10.AT", "C10.CACHEKEY"},
+		Explanation: "Decides the sharing discipline of multi-file runs: (COW) every write through ExprSemanticsChecker.vars is dominated by the copy of the table (and by the deep copy of github for nested writes), the copy functions install fresh maps and every DeepCopy copies its components deeply; (IMM) no mutation site reachable from the per-file check acts on data flowing from a package-level table or the shared Config; (LOCK) every access to the cache maps shared by files happens between Lock and Unlock of its mutex; (CONF) functions that are not thread-safe are unreachable from the goroutines; (CAP) goroutine bodies capture no loop variable; (INST) rules are created per file inside check; (PREFIX) project containment is separator-aware; (SIB) the caches handed to check belong to the project handed to check. (PERFILE) the per-file loops of LintFiles carry only counters and result slices; (AT) Projects.At answers only after the file system was consulted for this very path and reuses a remembered project only when its root equals the root found; (CACHEKEY) the per-repository cache tables are keyed by the root directory as is; (CHAN) no result is received from a channel.",
 		NotDecided:  "absence of all data races (no happens-before model of third-party code); LintFiles == LintFile result equality; agreement of the two derivations of a reusable workflow's interface is decided under C14.SIB",
 		Assumptions: commonAssumptions,
 	},
@@ -75,15 +75,15 @@ var propSpecs = []PropSpec{
 	},
 	{
 		ID:          "C16",
-		Rules:       []string{"C16.TAINT", "C16.FMT", "C16.FIELDS", "C16.WIDTH"},
-		Explanation: "Decides the one-diagnostic-one-line clause structurally: (TAINT) at every site that builds a diagnostic message (all callers of the 16 message primitives), a demand-driven backward search through format verbs, string operations, parameters (to all callers), returns, fields (to all stores), containers, strings.Builder writes and error texts finds no unquoted path from a user-text source (YAML scalars and keys, tokens, metadata read from files, error text of cron/os calls that echo their input) - %q, strconv.Quote*, quotes*/sortedQuotes and a newline-replacing ReplaceAll cut the search; (FMT) every printf-like call has a constant format (forwarded format parameters are followed to all callers); (FIELDS) GetTemplateFields copies every field of Error to the same-named field.",
+		Rules:       []string{"C16.TAINT", "C16.FMT", "C16.FIELDS", "C16.WIDTH", "C16.ONCE"},
+		Explanation: "Decides the one-diagnostic-one-line clause structurally: (TAINT) at every site that builds a diagnostic message (all callers of the 16 message primitives), a demand-driven backward search through format verbs, string operations, parameters (to all callers), returns, fields (to all stores), containers, strings.Builder writes and error texts finds no unquoted path from a user-text source (YAML scalars and keys, tokens, metadata read from files, error text of cron/os calls that echo their input) - %q, strconv.Quote*, quotes*/sortedQuotes and a newline-replacing ReplaceAll cut the search; (FMT) every printf-like call has a constant format (forwarded format parameters are followed to all callers); (FIELDS) GetTemplateFields copies every field of Error to the same-named field. (WIDTH) both runs of the caret line are measured in terminal cells; (ONCE) a format template is executed once per run, outside any loop, on the accumulated fields of all files.",
 		NotDecided:  "regex round trip through the problem matcher; caret placement; width computations; that the single-line output of shellcheck/pyflakes is single-line (assumption)",
 		Assumptions: append([]string{"messages of strconv, net/url, encoding/json, path.Match and text/scanner quote or do not echo their input; shellcheck/pyflakes messages are single-line"}, commonAssumptions...),
 	},
 	{
 		ID:          "C15",
-		Rules:       []string{"C15.ROOT", "C15.ABSJOIN", "C15.PURE", "C15.EXIT", "C15.PAT", "C20.ERR"},
-		Explanation: "Decides the structural clauses of filtering and exit status: (ROOT) the path handed to Config.PathConfigs comes from filepath.Rel(<project root>, ...) and the raw cwd-relative path is only used without a project or when Rel fails; (ABSJOIN) a path is joined to the working directory only under !filepath.IsAbs; (PURE) filterErrors mutates nothing, prints nothing, sorts nothing and returns its input or a slice built from the input's own elements in iteration order, consulting both pattern sets; (EXIT) the (condition -> constant) table of Command.Main's returns; (PAT) every ignore regexp is compiled from one element of the option list and matched against the message alone; (ERR, shared with C20) formatter errors are propagated by LintFiles, LintFile and Lint alike.",
+		Rules:       []string{"C15.ROOT", "C15.ABSJOIN", "C15.PURE", "C15.EXIT", "C15.PAT", "C20.ERR", "C15.CONFPAT"},
+		Explanation: "Decides the structural clauses of filtering and exit status: (ROOT) the path handed to Config.PathConfigs comes from filepath.Rel(<project root>, ...) and the raw cwd-relative path is only used without a project or when Rel fails; (ABSJOIN) a path is joined to the working directory only under !filepath.IsAbs; (PURE) filterErrors mutates nothing, prints nothing, sorts nothing and returns its input or a slice built from the input's own elements in iteration order, consulting both pattern sets; (EXIT) the (condition -> constant) table of Command.Main's returns; (PAT) every ignore regexp is compiled from one element of the option list and matched against the message alone; (ERR, shared with C20) formatter errors are propagated by LintFiles, LintFile and Lint alike. (CONFPAT) every ignore pattern of the configuration file is compiled on its own from its own sequence element.",
 		NotDecided:  "glob and regexp matching semantics; how paths are spelled on the command line beyond the IsAbs/Rel structure",
 		Assumptions: commonAssumptions,
 	},
@@ -96,15 +96,15 @@ var propSpecs = []PropSpec{
 	},
 	{
 		ID:          "C11",
-		Rules:       []string{"C11.VISIT", "C11.SITE", "C11.PAIR", "C11.ORDER", "C11.SAFE", "C11.RESET", "C08.KEYR", "C11.SCAN"},
-		Explanation: "Decides the traversal and wiring clauses of the detector: (VISIT) in every function of the semantic checker (and in visitExprNode) that receives a concrete expression node, a forward must-analysis over the CFG shows that on every path to a return the node is handed on whole, or each ExprNode child is handed to a checking function, or a diagnostic was emitted - so an untrusted read is seen wherever it is embedded; (SITE) checkUntrusted=true only flows from checkScriptString, which is applied to ExecRun.Run and to a with: value guarded by the actions/github-script@ prefix and the key script; (PAIR) enter callback then deferred leave first in check, Init/walk/OnVisitEnd/Errs in order; (ORDER) index before operand in both traversals; (SAFE) sanitisers are exactly contains/startsWith/endsWith compared in lower case and the tree's names are lower-case; (RESET) end() and Init() reset on every path; (KEYR, shared with C08) the tree is looked up with lower-cased names.",
+		Rules:       []string{"C11.VISIT", "C11.SITE", "C11.PAIR", "C11.ORDER", "C11.SAFE", "C11.RESET", "C08.KEYR", "C11.SCAN", "C11.FILTER"},
+		Explanation: "Decides the traversal and wiring clauses of the detector: (VISIT) in every function of the semantic checker (and in visitExprNode) that receives a concrete expression node, a forward must-analysis over the CFG shows that on every path to a return the node is handed on whole, or each ExprNode child is handed to a checking function, or a diagnostic was emitted - so an untrusted read is seen wherever it is embedded; (SITE) checkUntrusted=true only flows from checkScriptString, which is applied to ExecRun.Run and to a with: value guarded by the actions/github-script@ prefix and the key script; (PAIR) enter callback then deferred leave first in check, Init/walk/OnVisitEnd/Errs in order; (ORDER) index before operand in both traversals; (SAFE) sanitisers are exactly contains/startsWith/endsWith compared in lower case and the tree's names are lower-case; (RESET) end() and Init() reset on every path; (KEYR, shared with C08) the tree is looked up with lower-cased names. (SCAN) the scan over the placeholders of a scalar stops early only on a syntax error; (FILTER) the matcher remembers an object filter on every path of onObjectFilter and the index handler consults it.",
 		NotDecided:  "the state machine of the matcher itself (which paths are reported for which chains): completeness/precision over all expression shapes is a semantic property of onPropAccess/onIndexAccess/onObjectFilter",
 		Assumptions: commonAssumptions,
 	},
 	{
 		ID:          "C17",
-		Rules:       []string{"C17.MONO", "C17.ARG", "C17.CONSUME", "C17.COL", "C17.TERM"},
-		Explanation: "Recogniser == documentation is not decidable here; decided are: (MONO) no error emission of the shared validator is control-dependent on isRef being false, and the path-only pre-checks only test characters refs reject: ref-accepted implies path-accepted; (ARG) the character argument of every unexpected/invalidRefChar call is the variable holding the consumed rune, the rune constant of an enclosing case, or EOF - never a fresh Peek(); (CONSUME) every scan.Next() either consumes a character known from look-ahead, or its result is dispatched by a switch with cases for both line-break characters, or follows an already reported error; (COL) the error column comes from scanner.Position.Column; (TERM) each call of validateNext consumes a character and returns true only when the look-ahead is not EOF, the [...] loop consumes per iteration.",
+		Rules:       []string{"C17.MONO", "C17.ARG", "C17.CONSUME", "C17.COL", "C17.TERM", "C17.STATELESS"},
+		Explanation: "Recogniser == documentation is not decidable here; decided are: (MONO) no error emission of the shared validator is control-dependent on isRef being false, and the path-only pre-checks only test characters refs reject: ref-accepted implies path-accepted; (ARG) the character argument of every unexpected/invalidRefChar call is the variable holding the consumed rune, the rune constant of an enclosing case, or EOF - never a fresh Peek(); (CONSUME) every scan.Next() either consumes a character known from look-ahead, or its result is dispatched by a switch with cases for both line-break characters, or follows an already reported error; (COL) the error column comes from scanner.Position.Column; (TERM) each call of validateNext consumes a character and returns true only when the look-ahead is not EOF, the [...] loop consumes per iteration. (STATELESS) every non-empty filter value is validated unconditionally by the validator of its filter kind (branches/tags: ref, paths: path).",
 		NotDecided:  "which strings are reported (language of the recogniser), message texts, the column arithmetic of rule_glob",
 		Assumptions: commonAssumptions,
 	},
@@ -117,8 +117,8 @@ var propSpecs = []PropSpec{
 	},
 	{
 		ID:          "C06",
-		Rules:       []string{"C06.ANY", "C06.ASSIGN", "C06.LOOSE", "C06.OPEN", "C06.CMP", "C06.IFACECMP"},
-		Explanation: "Monotonicity in the type environment is relational; decided are its local necessary conditions: (ANY) for every chain of type tests on an ExprType value in the semantic checker and the expression rule from which some outcome reaches a diagnostic, either AnyType is one of the tested types and its own outcome is free of diagnostics, or only listed specific types are diagnosed and the fall-through is free of them; (ASSIGN) every Assignable method returns true for an AnyType argument and every Merge has an outcome yielding AnyType; (LOOSE) when the merged type of a matrix include expression is not an object the matrix object is opened.",
+		Rules:       []string{"C06.ANY", "C06.ASSIGN", "C06.LOOSE", "C06.OPEN", "C06.CMP", "C06.IFACECMP", "C06.MERGE"},
+		Explanation: "Monotonicity in the type environment is relational; decided are its local necessary conditions: (ANY) for every chain of type tests on an ExprType value in the semantic checker and the expression rule from which some outcome reaches a diagnostic, either AnyType is one of the tested types and its own outcome is free of diagnostics, or only listed specific types are diagnosed and the fall-through is free of them; (ASSIGN) every Assignable method returns true for an AnyType argument and every Merge has an outcome yielding AnyType; (LOOSE) when the merged type of a matrix include expression is not an object the matrix object is opened. (IFACECMP) no diagnostic depends on two ExprType values being identical; (MERGE) ObjectType.Merge returns an operand as is only when that operand is loose and otherwise combines Mapped of both; when the whole include section is an expression the closed row object is never returned as is.",
 		NotDecided:  "that a more precise type never yields fewer diagnostics downstream (relational over all expressions and environments); function-signature overload resolution",
 		Assumptions: commonAssumptions,
 	},
@@ -145,15 +145,15 @@ var propSpecs = []PropSpec{
 	},
 	{
 		ID:          "C07",
-		Rules:       []string{"C07.CONV", "C07.ACCUM", "C07.QUOTE", "C07.FIELDS", "C07.ARGS", "C07.TOKEN", "C07.ERRTOK", "C07.LEXPOS", "C07.ORIGIN", "C17.COL"},
-		Explanation: "Exactness of positions is decided as symbolic position arithmetic: integer values are normalised to linear forms over their sources (fields, parameters, loop-carried variables). (CONV) the placeholder-to-file mapping is base + value - 1 for line and column; (ACCUM) in the scan over the placeholders of a scalar the column handed to the parser is base + offset + bytes cut, the offset advances around the loop by exactly the bytes sliced off the remaining text, the scan starts at offset 0, `${{` is recorded three columns before the expression, and text/position/quoting of one scalar travel together; (QUOTE) every column base derived from a scalar's position is Pos.Col plus one exactly when the scalar is quoted, decided once outside loops (expression scan, bare `if:` conditions, glob errors on a per-error copy); (FIELDS) every integer stored into a line/column/offset field is computed from sources of the same class; (ARGS) arguments named like line/column are passed for parameters of the same class at every call; (TOKEN) each node is positioned at its own token or its leftmost operand; (ERRTOK) no parser error is recorded after the look-ahead was advanced without a new look-ahead test, and nothing is consumed through the parser between the end of the expression and the left-over error; (LEXPOS) the start of a token is moved past every skipped white space and tokens carry the recorded start; (ORIGIN) no position object has a constant or missing component and none is nil at a diagnostic; (COL, shared with C17) glob error columns come from the scanner.",
+		Rules:       []string{"C07.CONV", "C07.ACCUM", "C07.QUOTE", "C07.FIELDS", "C07.ARGS", "C07.TOKEN", "C07.ERRTOK", "C07.LEXPOS", "C07.ORIGIN", "C17.COL", "C07.ARGPOS"},
+		Explanation: "Exactness of positions is decided as symbolic position arithmetic: integer values are normalised to linear forms over their sources (fields, parameters, loop-carried variables). (CONV) the placeholder-to-file mapping is base + value - 1 for line and column; (ACCUM) in the scan over the placeholders of a scalar the column handed to the parser is base + offset + bytes cut, the offset advances around the loop by exactly the bytes sliced off the remaining text, the scan starts at offset 0, `${{` is recorded three columns before the expression, and text/position/quoting of one scalar travel together; (QUOTE) every column base derived from a scalar's position is Pos.Col plus one exactly when the scalar is quoted, decided once outside loops (expression scan, bare `if:` conditions, glob errors on a per-error copy); (FIELDS) every integer stored into a line/column/offset field is computed from sources of the same class; (ARGS) arguments named like line/column are passed for parameters of the same class at every call; (TOKEN) each node is positioned at its own token or its leftmost operand; (ERRTOK) no parser error is recorded after the look-ahead was advanced without a new look-ahead test, and nothing is consumed through the parser between the end of the expression and the left-over error; (LEXPOS) the start of a token is moved past every skipped white space and tokens carry the recorded start; (ORIGIN) no position object has a constant or missing component and none is nil at a diagnostic; (COL, shared with C17) glob error columns come from the scanner. (ARGPOS) an argument type error is positioned at the argument whose type was tested (equal index forms, through the re-slicing of the variadic rest).",
 		NotDecided:  "YAML scalars with escapes, multi-line or non-ASCII text (bytes vs columns); positions computed by go-yaml; the 1 <= line <= #lines bound",
 		Assumptions: commonAssumptions,
 	},
 	{
 		ID:          "C18",
-		Rules:       []string{"C18.COLOUR", "C18.CYCLE", "C18.REPORT", "C02.MAP", "C02.SORT", "C08.KEYW", "C08.KEYR"},
-		Explanation: "Exactness over all graphs is a property of a graph algorithm; decided is the discipline the algorithm's correctness and termination rest on: (COLOUR) the depth-first search marks a node active before looking at neighbours, finishes it on every path that returns no cycle and never on a path that returns one, recurses only into neighbours whose status is new (so each node is visited at most once: termination), reports edge{current, neighbour} only for a neighbour that is active, propagates a deeper cycle, starts only at new nodes, considers all nodes, and nobody else writes the status; (CYCLE) the reconstruction follows active nodes only, records the edge before descending, never re-enters a node of the collected path (depth bounded by the number of nodes) and removes failed branches; (REPORT) a dangling reference is reported iff the lookup of the needs entry fails, at the referring job, edges are exactly the entries that exist, cycle detection is control-dependent on no reference dangling, runs once, and exactly one diagnostic is emitted iff a back edge was returned, reconstructed from that edge; (MAP/SORT shared with C02) the verdict and the printed cycle do not depend on map order; (KEYW/KEYR shared with C08) ids are compared lower-cased.",
+		Rules:       []string{"C18.COLOUR", "C18.CYCLE", "C18.REPORT", "C02.MAP", "C02.SORT", "C08.KEYW", "C08.KEYR", "C18.ORDER"},
+		Explanation: "Exactness over all graphs is a property of a graph algorithm; decided is the discipline the algorithm's correctness and termination rest on: (COLOUR) the depth-first search marks a node active before looking at neighbours, finishes it on every path that returns no cycle and never on a path that returns one, recurses only into neighbours whose status is new (so each node is visited at most once: termination), reports edge{current, neighbour} only for a neighbour that is active, propagates a deeper cycle, starts only at new nodes, considers all nodes, and nobody else writes the status; (CYCLE) the reconstruction follows active nodes only, records the edge before descending, never re-enters a node of the collected path (depth bounded by the number of nodes) and removes failed branches; (REPORT) a dangling reference is reported iff the lookup of the needs entry fails, at the referring job, edges are exactly the entries that exist, cycle detection is control-dependent on no reference dangling, runs once, and exactly one diagnostic is emitted iff a back edge was returned, reconstructed from that edge; (MAP/SORT shared with C02) the verdict and the printed cycle do not depend on map order; (KEYW/KEYR shared with C08) ids are compared lower-cased. (ORDER) search and reconstruction iterate <node>.resolved in stored order.",
 		NotDecided:  "that the printed node sequence is a cycle of the graph for every graph and that the message loop terminates (these follow from the invariants above by an inductive argument that is not mechanised here); duplicate job ids",
 		Assumptions: commonAssumptions,
 	},
